@@ -399,13 +399,17 @@ func (s *Server) behave(p *Packet, send func([]byte) error, tc *net.TCPConn) boo
 		}
 	}
 
-	if tc == nil {
-		for _, k := range a.Pre {
-			if b := s.preDatagram(k, a, q); b != nil {
+	if tc == nil || a.PreTCP {
+		for i, k := range a.Pre {
+			if b := s.preDatagram(k, i, a, q); b != nil {
 				_ = send(b)
 				s.outcome(p, "pre")
 			}
 		}
+	}
+	if a.PreOnly {
+		s.outcome(p, "pre-only")
+		return true
 	}
 
 	if a.Raw != nil {
@@ -443,7 +447,7 @@ func (s *Server) behave(p *Packet, send func([]byte) error, tc *net.TCPConn) boo
 	return true
 }
 
-func (s *Server) preDatagram(k PreKind, a Action, q *dns.Msg) []byte {
+func (s *Server) preDatagram(k PreKind, i int, a Action, q *dns.Msg) []byte {
 	var m *dns.Msg
 	switch k {
 	case PreWrongID, PreWrongIDEvil:
@@ -455,6 +459,9 @@ func (s *Server) preDatagram(k PreKind, a Action, q *dns.Msg) []byte {
 			return nil
 		}
 		m.Id = q.Id + 1
+		if a.PreID != nil {
+			m.Id = a.PreID(i, q.Id)
+		}
 	case PreWrongQuestion, PreWrongQEvil:
 		oq := q.Copy()
 		name := "wrong-question." + strings.TrimPrefix(q.Question[0].Name, ".")
